@@ -112,4 +112,74 @@ theorem C14_session_present_iff_seq (caps : Caps) (s : Server) (hr : ReachSeq ca
 
 end Mochi.Broker
 
+namespace Mochi.Broker
+open Mochi.Topics
+
+/-- Clean Start never resumes; neither does a CONNECT over an MQTT 3 clean session (`C14_v3_clean_not_resumable`) -/
+theorem C14_discard_of_clean (s : Server) (k : Connect) (h : k.clean = true) :
+    (sessionExisted s k.id && !k.clean) = false := by rw [h]; simp
+
+/-- **C14, Clean Start discards / no Clean Start inherits.**  `s` reachable by a sequential history, `conn` fresh, `k`
+    admitted; `i = s.objs.length` the new client object, `A` the state right after `Clients.Add` (`inheritClientSession`
+    done, the object registered — `C13_admitted_registered_seq`), `r` the result of the op.
+
+    * **discarded** (`sessionExisted s k.id && !k.clean = false`: Clean Start, or the registered session is an MQTT 3
+      clean session, or there is none): at `Clients.Add` the new object is exactly the parsed CONNECT's object — no
+      in-flight record, no subscription; at the end of the op it still has no subscription and the topic index holds NO
+      entry (plain or shared) for `k.id`;
+    * **resumed** (`… = true`, `e` the object registered under `k.id` in `s`): at `Clients.Add` the new object's in-flight
+      records are EXACTLY the old object's, its subscription map is the old one re-subscribed in order
+      (`sp14_inheritSubs`) — equal to the old map when that has no duplicate key; at the end of the op the
+      subscription map is still that one.
+
+    The in-flight records at the END of the op are not claimed: in between, the taken-over connection's will is
+    published (possibly to the resumed session itself), `ResendInflightMessages` drops the PUBACK / PUBCOMP records it
+    resent, and the barrier releases a deferred message. -/
+theorem C14_clean_start_discards_seq (caps : Caps) (s : Server) (hr : ReachSeq caps s) (conn : Nat) (k : Connect)
+    (hf : conn ∉ s.connOf.map (·.1))
+    (hadm : refuseCode (connState s conn k) k (parseConnect s conn k) = none) :
+    let i := s.objs.length
+    let A := (admitA (connState s conn k) i k).1
+    let r := step s (.connect conn k)
+    ((sessionExisted s k.id && !k.clean) = false →
+      getObj A i = parseConnect s conn k ∧ (getObj A i).inflight = [] ∧ (getObj A i).subs = [] ∧
+      (getObj r.1 i).subs = [] ∧ ∀ f, (k.id, f) ∉ indexEntries r.1.topics) ∧
+    (∀ e, assocGet s.clients k.id = some e → (sessionExisted s k.id && !k.clean) = true →
+      (getObj A i).inflight = (getObj s e).inflight ∧
+      (getObj A i).subs = sp14_inheritSubs (getObj s e).subs [] ∧
+      (((getObj s e).subs.map (·.1)).Nodup → (getObj A i).subs = (getObj s e).subs) ∧
+      (getObj r.1 i).subs = (getObj A i).subs) := by
+  intro i A r
+  obtain ⟨hs, hw, _, hn⟩ := hr.inv
+  obtain ⟨_, C, _, _, _, S, _, _, F, R, _, _⟩ := sp14_step_connect_admitted s hs hw conn k hf hadm
+  rw [sp14_present_eq] at F R
+  have hw' : WF r.1 := WF_step s (.connect conn k) hw hf
+  have hs' : SyncInv r.1 := SyncInv_step s (.connect conn k) hs hw hf (hn.schedOK _)
+  constructor
+  · intro hd
+    have hA : getObj A i = parseConnect s conn k := F hd
+    have hsub : (getObj r.1 i).subs = [] := by
+      show (getObj (step s (.connect conn k)).1 s.objs.length).subs = []
+      rw [S]
+      show (getObj A i).subs = []
+      rw [hA]; rfl
+    refine ⟨hA, by rw [hA]; rfl, by rw [hA]; rfl, hsub, ?_⟩
+    refine hs'.indexSync.no_entry_of_no_subs k.id ?_
+    intro j hj
+    have e1 := assocGet_of_mem_nodup _ _ _ hw'.clients_nodup hj
+    have e2 : assocGet r.1.clients k.id = some i := by
+      show assocGet (step s (.connect conn k)).1.clients k.id = _
+      rw [C, assocGet_assocSet]; simp only [if_true]; rfl
+    rw [e1] at e2
+    cases e2
+    exact hsub
+  · intro e he hp
+    obtain ⟨r1, r2⟩ := R e he hp
+    refine ⟨r1, r2, fun hnd => ?_, S⟩
+    rw [r2]
+    exact sp14_inheritSubs_eq _ (fun fs hfs => ((hs.key e) fs hfs).1) hnd
+
+end Mochi.Broker
+
 #print axioms Mochi.Broker.C14_session_present_iff_seq
+#print axioms Mochi.Broker.C14_clean_start_discards_seq
